@@ -535,3 +535,76 @@ func TestChansMergeInterfaceValues(t *testing.T) {
 	theT = t
 	vk.Run(t, suite, "chans-merge-iface", 600, genPlan("chans-merge"), reps(runChansMergeIface))
 }
+
+// ---------------------------------------------------------------- stream.Merge: inputs that finish at the same instant
+
+type BurstPlan struct {
+	Arity  int `json:"arity"`
+	Items  int `json:"items"`
+	Rounds int `json:"rounds"`
+}
+
+func genBurst(t *rapid.T) BurstPlan {
+	return BurstPlan{Arity: rapid.IntRange(2, 6).Draw(t, "arity"), Items: rapid.IntRange(0, 2).Draw(t, "items"), Rounds: rapid.IntRange(20, 120).Draw(t, "rounds")}
+}
+
+// runBurst: all inputs have the same (tiny) length and no gaps, so their goroutines reach the end
+// together; whichever of them is "the last one" must close the output exactly once. A panic on one of
+// Merge's own goroutines (e.g. a double close) kills the process: the driver then reports the plan
+// that was running (suite.Crashy).
+func runBurst(p BurstPlan) (vk.Outcome, error) {
+	var out vk.Outcome
+	err := bubble(func() error {
+		bg := context.Background()
+		for round := 0; round < p.Rounds; round++ {
+			ss := make([]stream.Stream[int], p.Arity)
+			recs := make([]*sk.RecStream[int], p.Arity)
+			for i := range ss {
+				items := make([]int, p.Items)
+				for k := range items {
+					items[k] = val(i, k)
+				}
+				recs[i] = sk.NewRecStream(fmt.Sprintf("in%d", i), items)
+				ss[i] = recs[i]
+			}
+			m := stream.Merge(ss...)
+			got := 0
+			for {
+				_, err := m.Next(bg)
+				if err == stream.End {
+					break
+				}
+				if err != nil {
+					return vk.Violf("spurious-error", "round %d: %v", round, err)
+				}
+				got++
+				if got > p.Arity*p.Items {
+					return vk.Violf("extra-value", "round %d: more values than the inputs hold", round)
+				}
+			}
+			if got != p.Arity*p.Items {
+				return vk.Violf("lost-value", "round %d: End after %d of %d values", round, got, p.Arity*p.Items)
+			}
+			if _, err := m.Next(bg); err != stream.End {
+				return vk.Violf("end-not-sticky", "round %d: Next after End returned %v", round, err)
+			}
+			m.Close()
+			for _, r := range recs {
+				if err := r.Ownership(); err != nil {
+					return vk.Violf("ownership", "round %d: %v", round, err)
+				}
+			}
+		}
+		return nil
+	})
+	out.NonTrivial = true
+	out.Execs = p.Rounds
+	return out, err
+}
+
+func TestStreamMergeSimultaneousEnd(t *testing.T) {
+	theT = t
+	suite.Crashy = true
+	vk.Run(t, suite, "stream-merge-burst", 300, genBurst, runBurst)
+	suite.Crashy = false
+}
